@@ -1,5 +1,5 @@
 """Contracts on the filter-pipeline emitter (C02)."""
-from vrf.pyvc.spec import C, ASSUME, CLASS, FOLD, GLOBALS, CLASSES
+from vrf.pyvc.spec import C, ASSUME, CLASS, FOLD, GLOBALS, CLASSES, GHOST
 from vrf.pyvc.types import parse_ty
 import contracts.codegen_decls  # noqa: GenRM, printer log
 
@@ -96,3 +96,55 @@ C(_WDF,
             "implies(truthy(filtered) and not truthy(buffered) and not truthy(cached), G.emit_prev == '__M_writer(%%s)' %% %s and G.emit_last == \"return ''\")" % _S1)],
   raises={"*": {}}, props=["C05", "C02"], native_skip=True,
   note="neither default_filters nor <%page expression_filter> takes part: those belong to ${} expressions")
+
+# ---- write_inline_def: a def nested in another def is finished, and - when cached - wrapped, for the flags its tag carries
+# (C05: a buffered def returns its content; C17: a cached section produces what the uncached one would) ------------------
+_WID = "mako.codegen:_GenerateRenderMethod.write_inline_def"
+GHOST("wdf_buffered", "Any", "the `buffered` argument of the most recent write_def_finish call")
+GHOST("wdf_filtered", "Any", "its `filtered` argument")
+GHOST("wdf_cached", "Any", "its `cached` argument")
+GHOST("wcd_calls", "Int", "calls of write_cache_decorator")
+GHOST("wcd_buffered", "Any", "the `buffered` argument of the most recent one")
+CLASS("mako.parsetree:<def-or-block>@inline", name="InlineNode", bases=["FilteredNode"],
+      fields={"attributes": "Dict[Str,Str]", "decorator": "Str", "funcname": "Str", "nodes": "List[ChildNode]"})
+CLASSES["GenRM"].fields["identifier_stack"] = parse_ty("List[Obj[Idents]]")
+_EMITS = ["G.emit_n", "G.emit_last", "G.emit_prev", "G.dedents"]
+ASSUME("builtins:eval@" + _WID, params={"source": "Str"}, returns="Any", ensures=[("value", "same(result, py_eval(source))")],
+       note="eval of an attribute text ('True' / 'False' / an expression): some value determined by the text")
+ASSUME("mako.parsetree:<def-or-block>@inline.get_argument_expressions", params={"self": "InlineNode", "as_call": "Bool=False"}, returns="List[Str]",
+       ensures=[("fresh", "fresh(result)")])
+ASSUME("mako.pygen:PythonPrinter.writeline@" + _WID, params={"self": "Printer", "line": "Opt[Str]"}, modifies=_EMITS, raises={"*": {}})
+ASSUME("mako.pygen:PythonPrinter.writelines@" + _WID, params={"self": "Printer", "l0": "Opt[Str]=None", "l1": "Opt[Str]=None", "l2": "Opt[Str]=None"},
+       modifies=_EMITS, raises={"*": {}})
+ASSUME("mako.codegen:_Identifiers.branch@" + _WID, params={"self": "Idents", "node": "InlineNode", "**kwargs": "Star"}, returns="Idents",
+       ensures=[("a-scope", "result is not None")], raises={"*": {}})
+ASSUME("mako.codegen:_GenerateRenderMethod.write_variable_declares@" + _WID, params={"self": "GenRM", "identifiers": "Idents", "toplevel": "Bool=False", "limit": "Any=None"},
+       modifies=_EMITS, raises={"*": {}}, note="its own contract: contracts/codegen_declares.py")
+ASSUME("mako.parsetree:<child>.accept_visitor@" + _WID, params={"self": "ChildNode", "visitor": "GenRM"},
+       modifies=_EMITS + ["G.wdf_buffered", "G.wdf_filtered", "G.wdf_cached", "G.wcd_calls", "G.wcd_buffered", "heap('list:Obj[Idents]')"],
+       ensures=[("stack-balanced", "content(visitor.identifier_stack) == old(content(visitor.identifier_stack))")],
+       raises={"*": {}}, note="R3: the children are emitted by the visitors of the generator (nested defs by this very function); they leave the identifier stack as they found it")
+ASSUME("mako.codegen:_GenerateRenderMethod.write_def_finish@" + _WID,
+       params={"self": "GenRM", "node": "InlineNode", "buffered": "Any", "filtered": "Any", "cached": "Any", "callstack": "Any=True"},
+       modifies=_EMITS + ["G.wdf_buffered", "G.wdf_filtered", "G.wdf_cached"],
+       ensures=[("logged", "same(G.wdf_buffered, buffered) and same(G.wdf_filtered, box(filtered)) and same(G.wdf_cached, cached)")], raises={"*": {}},
+       note="its own contract is above; here only which flags it is given")
+ASSUME("mako.codegen:_GenerateRenderMethod.write_cache_decorator@" + _WID,
+       params={"self": "GenRM", "node_or_pagetag": "InlineNode", "name": "Str", "args": "List[Str]", "buffered": "Any", "identifiers": "Idents",
+               "inline": "Bool=False", "toplevel": "Bool=False"},
+       modifies=_EMITS + ["G.wcd_calls", "G.wcd_buffered"],
+       ensures=[("logged", "G.wcd_calls == old(G.wcd_calls) + 1 and same(G.wcd_buffered, buffered)")], raises={"*": {}})
+C(_WID, params={"self": "GenRM", "node": "InlineNode", "identifiers": "Idents", "nested": "Bool"},
+  requires=[("present", "node.filter_args is not None and node.filter_args.args is not None and node.attributes is not None and node.nodes is not None and self.identifier_stack is not None")],
+  modifies=_EMITS + ["G.wdf_buffered", "G.wdf_filtered", "G.wdf_cached", "G.wcd_calls", "G.wcd_buffered", "self.identifier_stack", "heap('list:Obj[Idents]')", "fresh_heap('list:Str')"],
+  loops={0: {"inv": [("stack-has-this-scope-on-top", "len(self.identifier_stack) == pre(len(self.identifier_stack))", "L")],
+             "modifies": _EMITS + ["G.wdf_buffered", "G.wdf_filtered", "G.wdf_cached", "G.wcd_calls", "G.wcd_buffered", "heap('list:Obj[Idents]')"]}},
+  ensures=[("the def is finished for the flags its tag carries",
+            "same(G.wdf_buffered, py_eval(ite('buffered' in node.attributes, node.attributes['buffered'], 'False'))) and "
+            "same(G.wdf_cached, py_eval(ite('cached' in node.attributes, node.attributes['cached'], 'False'))) and "
+            "same(G.wdf_filtered, box(len(node.filter_args.args) > 0))"),
+           ("a cached def is wrapped by a cache decorator that knows whether the def is buffered",
+            "implies(truthy(G.wdf_cached), same(G.wcd_buffered, G.wdf_buffered))"),
+           ("identifier-stack-restored", "content(self.identifier_stack) == old(content(self.identifier_stack))")],
+  raises={"*": {}}, locals={"n": "ChildNode"}, props=["C05", "C17"], native_skip=True,
+  note="the body's children are emitted under the induction hypothesis R3")
